@@ -2,6 +2,13 @@ package checks
 
 import (
 	"fmt"
+	"math/rand"
+	"os"
+	"strings"
+	"time"
+
+	"verif/harness/core"
+	"verif/harness/gen"
 
 	"github.com/gogpu/naga/ir"
 
@@ -47,6 +54,28 @@ func XRun(src string, inp []int32, nOut int) int {
 			fmt.Printf("%-5s trap: %s\n", name, o.Trap)
 		default:
 			fmt.Printf("%-5s %v\n", name, bytes2words(in.Buffers[t.slotFor(gOut)]))
+		}
+	}
+	return 0
+}
+
+// RandScan evaluates the random programs of one seed one at a time with the specification and reports how long each
+// takes (development aid for finding a program that makes the evaluation blow up).
+func RandScan(seed int64, n int) int {
+	c := core.NewCtx("SCAN", "quick", "other")
+	progs := gen.RandProgramsFor(rand.New(rand.NewSource(seed*7919+13)), n, 6, false)
+	for i, g := range progs {
+		cs := &SemCase{Family: g.Family, Desc: g.Desc, Prog: g.Prog, Inputs: g.Inputs}
+		t0 := time.Now()
+		err := EvalSpec(c, []*SemCase{cs}, 1)
+		d := time.Since(t0)
+		st := "ok"
+		if err != nil {
+			st = "ERR " + strings.SplitN(err.Error(), "\n", 2)[0]
+		}
+		fmt.Printf("%d %s %.1fs cost=%d size=%d\n", i, st, d.Seconds(), gen.DynCost(g.Prog), len(wg.Print(g.Prog)))
+		if d > 40*time.Second || err != nil {
+			_ = os.WriteFile(fmt.Sprintf("/tmp/slow_%d_%d.wgsl", seed, i), []byte(wg.Print(g.Prog)), 0o644)
 		}
 	}
 	return 0
